@@ -1090,7 +1090,10 @@ def run(chk):
                        "non-negative / integer, <= 60 entries) x prefix length n_iter_max = k (quick: 1..3, line search 7 and 9 with several seeds so that accepted "
                        "and rejected jumps occur at the last iteration; thorough: up to 13) + convergence-stopped runs (tol > 0, n_iter_max = 60); "
                        "one Coq case per (run, last reported value) and per callback invocation; + direct error_calc calls in all four branches; "
-                       "+ direct _parafac2_reconstruction_error calls; + loop-skeleton trace projections.  distinct key = (configuration, shape, data kind, k[, callback index])")
+                       "+ direct _parafac2_reconstruction_error calls; + loop-skeleton trace projections (counts) and event-level traces of parafac / non_negative_parafac / "
+                       "non_negative_parafac_hals (MTTKRP modes, cp_normalize, shortcut / explicit error computations, callbacks) against Model/Errors.v:obs_of_trace.  "
+                       "Every option that feeds into or sits next to an error expression (l2_reg, sparsity, masks, fixed modes, sparsity_coefficients, core_sparsity_coefficient, exact, "
+                       "constraint weights) occurs with a non-zero value in at least one configuration.  distinct key = (configuration, shape, data kind, k[, callback index])")
     for b in broken:
         chk.broken.append({"what": "correspondence corr:C06 shard not evaluated", "detail": b})
     for i in sorted(failing):
@@ -1107,6 +1110,7 @@ def run(chk):
                        "the break paths are covered by the skeleton theorems, the callback-driven stops and the convergence-stopped runs (tol > 0)"]
     chk.trusted = [                   "sparse components are the implementation's (returned, or sparsify_tensor on the imputed residual in the direct error_calc cases)",
                    "line-search decisions are read from the verbose output of parafac / parafac2 (used for coverage histograms and to steer the extra line-search seeds only)",
+                   "event logs are taken by temporarily rebinding unfolding_dot_khatri_rao / cp_normalize / error_calc / cp_norm in tensorly.decomposition._cp and _nn_cp (harness side; skipped and counted if a name is missing)",
                    "Q / dyadic execution of the model stands for the ring-regime model on rational inputs; KCPfast and KParafac2 re-check shortcut == residual exactly on each instance"]
     return chk.finish(CLASSIFIERS)
 
